@@ -12,6 +12,7 @@ class Mon(Module):
             self.mregs = []
         s = Signal(width, name_override=name, reset=reset) if name else Signal(width, reset=reset)
         self.mregs.append(s)
+        s.vf_monitor = True        # bookkeeping of the monitor, not hardware: never subject to metastability modelling
         return s
 
     def flag(self, name):
